@@ -111,6 +111,7 @@ def extra(chk, thorough):
                     break
                 r.step(("ack", r.cur_seq()))
             wire = b"".join(bytes(x) for x in r.wire.log)
+            writes_ = list(r.wire.log)
             if not task.done():
                 task.cancel()
                 r.loop.settle()
@@ -121,6 +122,10 @@ def extra(chk, thorough):
         chk.count("request_size_sweep")
         if got != [want] and sbad is None:
             sbad = (L, n, [g[:60] for g in got], want[:60], len(want))
+        # "check every ... length": an NCP that follows the link protocol takes at most 247 body bytes per frame
+        too_long = [len(bytes(x)) - 9 for x in writes_ if not (len(bytes(x)) == 7 and bytes(x)[5] & 1) and len(bytes(x)) - 9 > 247]
+        if too_long and sbad is None:
+            sbad = (L, n, ["a data frame with a body of %d bytes (the link protocol's maximum is 247)" % too_long[0]], want[:60], len(want))
     # the same, many requests one after the other on ONE link (the numbering state and whatever the link layer remembers
     # from earlier frames carry over): every frame written is well-formed by the independent decoder, and the NCP
     # reassembles exactly the requests, in order
